@@ -1,3 +1,313 @@
-import HdVerif.Model.SRReport
+import HdVerif.Proofs.SRReport
+/-! # C16  Measurement-report queries return exactly the matching groups
+
+Property theorems only.  Model: `Model/SRReport.lean`.  The kind classification by content counting
+(`Gen.roiCountGuard/Step`, `Gen.containsPlanarRois`, `Gen.containsVolumetricRois`), the argument checks
+(`Gen.planarArgCheck`, `Gen.volumetricArgCheck`) and the tables (`Gen.*AllowedRefTypes`, `Gen.refTypeValueTypes`)
+are regenerated from `sr/templates.py` on every run (tie T); loops, filter predicates and the ROI reference
+search are hand-modelled and checked against the real queries (tie C).  `specKind` / `specFilters` are the
+declarative statement over the CONSTRUCTION PARAMETERS of a group (`Params`), `mkGroup` is the layout the
+constructors produce (checked against the real containers item for item). -/
 namespace HdVerif.C16
+open HdVerif HdVerif.SRReport HdVerif.SRReportLemmas
+
+/-! ## the result is a document-order filter -/
+
+/-- **Any report** (constructed or third-party): an accepted query returns strictly increasing positions — document
+order, no group twice — and a position is returned iff the loop body keeps that group; the query fails iff the
+arguments are refused or some group cannot be decided. -/
+theorem query_is_document_order_filter (k : Kind) (gs : List Group) (f : Filters) (l : List Nat)
+    (h : query k gs f = .ok l) :
+    l.Pairwise (· < ·) ∧ (∀ j, j ∈ l ↔ ∃ g, gs[j]? = some g ∧ keep k g f = .ok true) ∧
+    (∀ g ∈ gs, ∃ b, keep k g f = .ok b) ∧ (∃ b, argCheck k f = .ok b) := by
+  unfold query at h
+  cases ha : argCheck k f with
+  | error x => simp [ha] at h
+  | ok b =>
+    simp only [ha] at h
+    obtain ⟨h1, h2, h3⟩ := queryLoop_spec k f gs 0 l h
+    refine ⟨h2, ?_, h1, ⟨b, rfl⟩⟩
+    intro j
+    rw [h3 j]
+    simp
+
+/-- **Soundness and completeness over construction parameters.**  For a report built from groups with parameters
+`ps` (consistent with what the constructors accept; evaluation names not reserved), an accepted query returns, in
+document order and once each, exactly the positions of the groups whose parameters say they are of the queried
+kind and satisfy every filter — never a group of another kind, never one failing a filter, never omitting one. -/
+theorem query_sound_complete (k : Kind) (ps : List Params) (f : Filters)
+    (hcons : ∀ p ∈ ps, p.consistent = true) (hclean : ∀ p ∈ ps, CleanNames p) (b : Bool) (hargs : argCheck k f = .ok b) :
+    ∃ l, query k (ps.map mkGroup) f = .ok l ∧ l.Pairwise (· < ·) ∧
+      ∀ j, j ∈ l ↔ ∃ p, ps[j]? = some p ∧ specKind k p = true ∧ specFilters k p f = true := by
+  have hall : ∀ g ∈ ps.map mkGroup, ∃ b, keep k g f = .ok b := by
+    intro g hg
+    obtain ⟨p, hp, rfl⟩ := List.mem_map.mp hg
+    exact ⟨_, keep_constructed k p f (hcons p hp) (hclean p hp)⟩
+  obtain ⟨l, hl⟩ := queryLoop_ok_of_all k f (ps.map mkGroup) 0 hall
+  have hq : query k (ps.map mkGroup) f = .ok l := by simp [query, hargs, hl]
+  obtain ⟨h1, h2, _, _⟩ := query_is_document_order_filter k _ f l hq
+  refine ⟨l, hq, h1, ?_⟩
+  intro j
+  rw [h2 j]
+  constructor
+  · rintro ⟨g, hg, hk⟩
+    rw [List.getElem?_map] at hg
+    cases hp : ps[j]? with
+    | none => simp [hp] at hg
+    | some p =>
+      simp only [hp, Option.map_some, Option.some.injEq] at hg
+      subst hg
+      have hmem : p ∈ ps := List.mem_of_getElem? hp
+      rw [keep_constructed k p f (hcons p hmem) (hclean p hmem)] at hk
+      simp only [Except.ok.injEq, Bool.and_eq_true] at hk
+      exact ⟨p, rfl, hk.1, hk.2⟩
+  · rintro ⟨p, hp, hk1, hk2⟩
+    refine ⟨mkGroup p, by rw [List.getElem?_map, hp]; rfl, ?_⟩
+    have hmem : p ∈ ps := List.mem_of_getElem? hp
+    rw [keep_constructed k p f (hcons p hmem) (hclean p hmem), hk1, hk2]
+    rfl
+
+/-- a query whose arguments are refused returns nothing at all: the error of the argument check -/
+theorem refused_arguments_refuse_query (k : Kind) (gs : List Group) (f : Filters) (e : ErrKind) (h : argCheck k f = .error e) :
+    query k gs f = .error e := by
+  simp [query, h]
+
+/-! ## kinds -/
+
+/-- **With template identification the three kinds are mutually exclusive** -/
+theorem kinds_disjoint_identified (g : Group) (t : String) (ht : g.templateId = some t) (k1 k2 : Kind)
+    (h1 : isKind k1 g = .ok true) (h2 : isKind k2 g = .ok true) : k1 = k2 := by
+  simp only [isKind, ht, Except.ok.injEq, beq_iff_eq] at h1 h2
+  cases k1 <;> cases k2 <;> simp_all [Kind.templateId]
+
+/-- **Without template identification** (content counting over the translated decisions): an image group is neither
+planar nor volumetric, and a group can be both planar and volumetric only if it holds a region-in-space reference
+(which the standard allows in both templates). -/
+theorem kinds_disjoint_by_content (g : Group) (ht : g.templateId = none) :
+    (isKind .image g = .ok true → isKind .planar g = .ok false ∧ isKind .volumetric g = .ok false) ∧
+    (isKind .planar g = .ok true → isKind .volumetric g = .ok true →
+      ∃ a b c d e, countRoi g = .ok (a, b, c, d, e) ∧ e ≥ 1) := by
+  simp only [isKind, ht]
+  constructor
+  · intro h
+    cases hp : containsPlanar g with
+    | error x => simp [hp] at h
+    | ok p =>
+      cases hv : containsVolumetric g with
+      | error x => simp [hp, hv] at h
+      | ok v =>
+        simp only [hp, hv, Except.ok.injEq, Bool.not_eq_true', Bool.or_eq_false_iff] at h
+        simp [h.1, h.2]
+  · intro hp hv
+    unfold containsPlanar at hp
+    unfold containsVolumetric at hv
+    cases hc : countRoi g with
+    | error x => simp [hc] at hp
+    | ok c =>
+      obtain ⟨a, b, c', d, e⟩ := c
+      refine ⟨a, b, c', d, e, rfl, ?_⟩
+      simp only [hc] at hp hv
+      unfold Gen.containsPlanarRois at hp
+      unfold Gen.containsVolumetricRois at hv
+      grind
+
+/-- **Constructed groups**: two different kinds claim the same group only for a template-less region-in-space group. -/
+theorem kinds_disjoint_constructed (p : Params) (hcons : p.consistent = true) (k1 k2 : Kind) (hne : k1 ≠ k2)
+    (h1 : specKind k1 p = true) (h2 : specKind k2 p = true) : p.template = false ∧ ∃ r, p.ref = .regionInSpace r := by
+  unfold specKind at h1 h2
+  unfold Params.consistent at hcons
+  cases ht : p.template
+  · refine ⟨rfl, ?_⟩
+    simp only [ht, Bool.false_eq_true, if_false] at h1 h2
+    cases hr : p.ref with
+    | regionInSpace r => exact ⟨r, rfl⟩
+    | regions2d rs =>
+      rw [hr] at h1 h2
+      cases k1 <;> cases k2 <;> simp_all [contentKind] <;> omega
+    | surface gr n srcs ser =>
+      rw [hr] at h1 h2
+      cases k1 <;> cases k2 <;> simp_all [contentKind]
+    | _ =>
+      rw [hr] at h1 h2
+      cases k1 <;> cases k2 <;> simp_all [contentKind]
+  · simp only [ht, if_true, beq_iff_eq] at h1 h2
+    exact absurd (h1.symm.trans h2) hne
+
+/-- **Every constructed group is found by the query of its own kind** — with template identification always;
+without it unless it is a volumetric group with exactly one image region (indistinguishable from a planar group:
+the documented heuristic). -/
+theorem own_kind_recognised (p : Params) (hcons : p.consistent = true)
+    (h : p.template = true ∨ ∀ x, p.ref ≠ .regions2d [x]) : specKind p.kind p = true := by
+  unfold specKind
+  unfold Params.consistent at hcons
+  cases ht : p.template
+  · simp only [Bool.false_eq_true, if_false]
+    have h' : ∀ x, p.ref ≠ .regions2d [x] := by
+      rcases h with h | h
+      · rw [ht] at h; cases h
+      · exact h
+    cases hk : p.kind with
+    | planar =>
+      rw [hk] at hcons
+      cases hr : p.ref <;> rw [hr] at hcons <;> simp at hcons <;> simp [contentKind]
+    | image =>
+      rw [hk] at hcons
+      cases hr : p.ref <;> rw [hr] at hcons <;> simp at hcons <;> simp [contentKind]
+    | volumetric =>
+      rw [hk] at hcons
+      cases hr : p.ref with
+      | regions2d rs =>
+        rw [hr] at hcons
+        match rs, hcons, hr with
+        | [x], _, hr => exact absurd hr (h' x)
+        | _ :: _ :: _, _, _ => simp [contentKind]
+      | surface gr n srcs ser => rw [hr] at hcons; simpa [contentKind] using hcons
+      | segment seg srcs ser => simp [contentKind]
+      | regionInSpace r => simp [contentKind]
+      | region2d gr s => rw [hr] at hcons; simp at hcons
+      | region3d gr => rw [hr] at hcons; simp at hcons
+      | segframe seg s => rw [hr] at hcons; simp at hcons
+      | images srcs => rw [hr] at hcons; simp at hcons
+  · simp
+
+/-! ## incompatible filter combinations -/
+
+/-- **Planar query: which filter combinations are refused** (over the argument checks translated from the source):
+accepted iff none of: a MULTIPOINT graphic type; a 3-D POLYLINE or ELLIPSOID graphic type; a 3-D graphic type
+together with a referenced class/instance UID; a reference type that is not Image Region, Referenced Segmentation
+Frame or Region in Space; a graphic type together with a reference type other than Image Region. -/
+theorem incompatible_filters_refused_planar (gtGiven is2d : Bool) (nm : String) (rtGiven : Bool) (rt : String) (instG clsG : Bool) :
+    Gen.planarArgCheck gtGiven is2d nm rtGiven rt instG clsG = .ok true ↔
+      ¬ (gtGiven = true ∧ nm = "MULTIPOINT") ∧
+      ¬ (gtGiven = true ∧ is2d = false ∧ (nm = "POLYLINE" ∨ nm = "ELLIPSOID")) ∧
+      ¬ (gtGiven = true ∧ is2d = false ∧ (instG = true ∨ clsG = true)) ∧
+      ¬ (rtGiven = true ∧ rt ≠ cImageRegion ∧ rt ≠ cReferencedSegmentationFrame ∧ rt ≠ cRegionInSpace) ∧
+      ¬ (rtGiven = true ∧ gtGiven = true ∧ rt ≠ cImageRegion) := by
+  unfold Gen.planarArgCheck
+  simp only [cImageRegion, cReferencedSegmentationFrame, cRegionInSpace]
+  cases gtGiven <;> cases is2d <;> cases rtGiven <;> cases instG <;> cases clsG <;>
+    simp <;> grind
+
+/-- **Volumetric query: which filter combinations are refused.** -/
+theorem incompatible_filters_refused_volumetric (gtGiven is2d : Bool) (nm : String) (rtGiven : Bool) (rt : String) (instG clsG : Bool) :
+    Gen.volumetricArgCheck gtGiven is2d nm rtGiven rt instG clsG = .ok true ↔
+      ¬ (gtGiven = true ∧ nm = "MULTIPOINT") ∧
+      ¬ (gtGiven = true ∧ is2d = false ∧ nm = "POLYLINE") ∧
+      ¬ (gtGiven = true ∧ is2d = false ∧ (instG = true ∨ clsG = true)) ∧
+      ¬ (rtGiven = true ∧ rt ≠ cImageRegion ∧ rt ≠ cReferencedSegment ∧ rt ≠ cVolumeSurface ∧ rt ≠ cRegionInSpace) ∧
+      ¬ (rtGiven = true ∧ gtGiven = true ∧ rt ≠ cImageRegion ∧ rt ≠ cVolumeSurface) ∧
+      ¬ (rtGiven = true ∧ gtGiven = true ∧ rt = cImageRegion ∧ is2d = false) ∧
+      ¬ (rtGiven = true ∧ gtGiven = true ∧ rt = cVolumeSurface ∧ is2d = true) := by
+  unfold Gen.volumetricArgCheck
+  simp only [cImageRegion, cReferencedSegment, cVolumeSurface, cRegionInSpace]
+  cases gtGiven <;> cases is2d <;> cases rtGiven <;> cases instG <;> cases clsG <;>
+    simp <;> grind
+
+/-- the argument checks never fail in any other way than refusing (no stray error class) and never answer `false` -/
+theorem arg_checks_total (gtGiven is2d : Bool) (nm : String) (rtGiven : Bool) (rt : String) (instG clsG : Bool) :
+    (Gen.planarArgCheck gtGiven is2d nm rtGiven rt instG clsG = .ok true ∨
+     Gen.planarArgCheck gtGiven is2d nm rtGiven rt instG clsG = .error .value ∨
+     Gen.planarArgCheck gtGiven is2d nm rtGiven rt instG clsG = .error .type) ∧
+    (Gen.volumetricArgCheck gtGiven is2d nm rtGiven rt instG clsG = .ok true ∨
+     Gen.volumetricArgCheck gtGiven is2d nm rtGiven rt instG clsG = .error .value ∨
+     Gen.volumetricArgCheck gtGiven is2d nm rtGiven rt instG clsG = .error .type) := by
+  unfold Gen.planarArgCheck Gen.volumetricArgCheck
+  constructor <;> grind
+
+/-- the image query has no incompatible combination -/
+theorem image_query_accepts_all_filters (f : Filters) : argCheck .image f = .ok true := rfl
+
+/-- every allowed ROI reference type has a row in the value-type table: the search for the reference items
+cannot fail with a `KeyError` -/
+theorem reference_tables_total : Covered Gen.planarAllowedRefTypes ∧ Covered Gen.volumetricAllowedRefTypes :=
+  ⟨covered_planar, covered_volumetric⟩
+
+/-! ## returned groups report what they were constructed with -/
+
+/-- **Accessors return the construction values**: tracking UID and identifier, finding type and category, finding
+sites, measurements and qualitative evaluations (the latter three in construction order; evaluations exactly — the
+finding, finding category, method, finding site and geometric purpose items are not evaluations). -/
+theorem accessors_return_construction_values (p : Params) (hc : CleanNames p) :
+    trackingUidOf (mkGroup p) = some p.trackingUid ∧ trackingIdOf (mkGroup p) = some p.trackingId ∧
+    findingTypeOf (mkGroup p) = p.findingType ∧ findingCategoryOf (mkGroup p) = p.findingCategory ∧
+    findingSitesOf (mkGroup p) = p.sites ∧ measurementsOf (mkGroup p) = p.measurements ∧
+    evaluationsOf (mkGroup p) = p.evaluations :=
+  ⟨trackingUid_constructed p, trackingId_constructed p, findingType_constructed p hc, findingCategory_constructed p hc,
+   findingSites_constructed p hc, measurements_constructed p, evaluations_constructed p hc⟩
+
+/-- **The reference type reported is the one constructed with** (planar and volumetric groups; measurement and
+evaluation names must not themselves be reference type names, the accessor looks at names only). -/
+theorem reference_type_returned (p : Params) (hcons : p.consistent = true)
+    (hp : p.kind = .planar → CleanRefNames p Gen.planarAllowedRefTypes)
+    (hv : p.kind = .volumetric → CleanRefNames p Gen.volumetricAllowedRefTypes) :
+    (p.kind = .planar → referenceTypeOf (mkGroup p) Gen.planarAllowedRefTypes = p.ref.refType) ∧
+    (p.kind = .volumetric → referenceTypeOf (mkGroup p) Gen.volumetricAllowedRefTypes = p.ref.refType) := by
+  unfold Params.consistent at hcons
+  constructor
+  · intro hk
+    rw [referenceType_constructed p _ (by decide) (hp hk)]
+    rw [hk] at hcons
+    cases hr : p.ref <;> rw [hr] at hcons <;> simp at hcons <;>
+      simp [refItems, RoiRef.refType, Gen.planarAllowedRefTypes, cImageRegion, cReferencedSegmentationFrame, cRegionInSpace]
+  · intro hk
+    rw [referenceType_constructed p _ (by decide) (hv hk)]
+    rw [hk] at hcons
+    cases hr : p.ref with
+    | regions2d rs =>
+      rw [hr] at hcons
+      match rs, hcons with
+      | x :: xs, _ => simp [refItems, RoiRef.refType, Gen.volumetricAllowedRefTypes, cImageRegion]
+    | surface gr n srcs ser =>
+      rw [hr] at hcons
+      simp only [decide_eq_true_eq] at hcons
+      match n, hcons with
+      | n + 1, _ => simp [refItems, RoiRef.refType, Gen.volumetricAllowedRefTypes, cVolumeSurface, List.replicate_succ]
+    | segment seg srcs ser => simp [refItems, RoiRef.refType, Gen.volumetricAllowedRefTypes, cReferencedSegment]
+    | regionInSpace r => simp [refItems, RoiRef.refType, Gen.volumetricAllowedRefTypes, cRegionInSpace]
+    | region2d gr s => rw [hr] at hcons; simp at hcons
+    | region3d gr => rw [hr] at hcons; simp at hcons
+    | segframe seg s => rw [hr] at hcons; simp at hcons
+    | images srcs => rw [hr] at hcons; simp at hcons
+
+/-! ## non-vacuity -/
+
+def exCT (i : String) : Ref := ⟨"1.2.840.10008.5.1.4.1.1.2", i⟩
+def exSEG : Ref := ⟨"1.2.840.10008.5.1.4.1.1.66.4", "9.1"⟩
+
+/-- six groups of mixed kinds, two of them without template identification -/
+def exReport : List Params := [
+  { kind := .planar, trackingUid := "1.1", trackingId := "a", findingCategory := some "C1|99V", findingType := some "F1|99V",
+    sites := ["S1|99V"], measurements := [("M1|99V", "3.5")], evaluations := [("Q1|99V", "A1|99V")], purpose := none,
+    ref := .region2d "POLYLINE" (exCT "7.1"), template := true },
+  { kind := .volumetric, trackingUid := "1.2", trackingId := "b", findingCategory := none, findingType := some "F1|99V",
+    sites := ["S1|99V", "S2|99V"], measurements := [], evaluations := [], purpose := some "P1|99V",
+    ref := .regions2d [("POLYLINE", exCT "7.1"), ("CIRCLE", exCT "7.2")], template := false },
+  { kind := .planar, trackingUid := "1.3", trackingId := "c", findingCategory := none, findingType := some "F2|99V",
+    sites := [], measurements := [], evaluations := [], purpose := none,
+    ref := .segframe exSEG (exCT "7.3"), template := false },
+  { kind := .image, trackingUid := "1.4", trackingId := "d", findingCategory := none, findingType := none,
+    sites := ["S1|99V"], measurements := [("M1|99V", "1.0"), ("M2|99V", "2.0")], evaluations := [], purpose := none,
+    ref := .images [exCT "7.1"], template := true },
+  { kind := .volumetric, trackingUid := "1.5", trackingId := "e", findingCategory := none, findingType := some "F1|99V",
+    sites := [], measurements := [], evaluations := [], purpose := none,
+    ref := .segment exSEG [exCT "7.3", exCT "7.4"] none, template := true },
+  { kind := .planar, trackingUid := "1.6", trackingId := "f", findingCategory := none, findingType := some "F1|99V",
+    sites := ["S1|99V"], measurements := [], evaluations := [], purpose := none,
+    ref := .region3d "POLYGON", template := true }]
+
+example : ∀ p ∈ exReport, p.consistent = true := by decide
+example : ∀ p ∈ exReport, ∀ e ∈ p.evaluations, reservedCodeNames.contains e.1 = false := by decide
+example : query .planar (exReport.map mkGroup) {} = .ok [0, 2, 5] := by decide
+example : query .volumetric (exReport.map mkGroup) {} = .ok [1, 4] := by decide
+example : query .image (exReport.map mkGroup) {} = .ok [3] := by decide
+example : query .planar (exReport.map mkGroup) { findingType := some "F1|99V", findingSite := some "S1|99V" } = .ok [0, 5] := by decide
+example : query .planar (exReport.map mkGroup) { findingType := some "F1|99V", graphic := some (true, "POLYLINE") } = .ok [0] := by decide
+example : query .planar (exReport.map mkGroup) { inst := some "7.3", cls := some "1.2.840.10008.5.1.4.1.1.2" } = .ok [2] := by decide
+example : query .volumetric (exReport.map mkGroup) { inst := some "7.4" } = .ok [4] := by decide
+example : query .volumetric (exReport.map mkGroup) { referenceType := some cImageRegion, graphic := some (true, "POLYLINE") } = .ok [1] := by decide
+/-- refused: 3-D graphic type with a referenced UID; segment reference type in a planar query; graphic type with a segment -/
+example : query .planar (exReport.map mkGroup) { graphic := some (false, "POLYGON"), inst := some "7.1" } = .error .type := by decide
+example : query .planar (exReport.map mkGroup) { referenceType := some cReferencedSegment } = .error .value := by decide
+example : query .volumetric (exReport.map mkGroup) { referenceType := some cReferencedSegment, graphic := some (true, "CIRCLE") } = .error .value := by decide
+
 end HdVerif.C16
